@@ -154,6 +154,11 @@ func expectedLeaves(s mb.Msg) (leaves []leafExp, shape string) {
 		leaves = append(leaves, leafExp{kind: "attach", idx: i, mtype: fileType(f), content: f.Content, enc: enc, name: f.Name, desc: f.Desc})
 		as = append(as, fileType(f))
 	}
+	if s.PGP > 0 {
+		// PGP/MIME: one multipart/encrypted or multipart/signed around everything the caller supplied, in order
+		all := append(append(append([]string{}, ps...), es...), as...)
+		return leaves, []string{"", "encrypted", "signed"}[s.PGP] + "(" + strings.Join(all, ",") + ")"
+	}
 	// nesting: mixed > related > alternative, each level exactly when it has to hold more than one thing
 	inner := strings.Join(ps, ",")
 	n := len(ps)
